@@ -138,6 +138,9 @@ class FMMULock:
             fcntl.lockf(self.fd, fcntl.LOCK_UN)
 
     def get_next_addr(self):
+        if (self.base_addr + (1 << 12)) >> 22 != self.base_addr >> 22:
+            # the next address would belong to another process
+            raise OverflowError("too many sync groups in this process")
         self.base_addr += 1 << 12
         return self.base_addr
 
